@@ -271,6 +271,7 @@ def run(repo, rep, tier):
   r1_r2_init(repo, rep)
   from mmsa.props import c04
   c04.r4_data_object(repo, rep)
+  c04.r4_data_memo(repo, rep)
   for i in rep.instances:
     if i.rule == 'R4/single-source':
       i.rule = 'R3/single-source'
